@@ -158,3 +158,69 @@ pub proof fn lemma_ftyp_roundtrip(d: Seq<u8>, p: int, b: FtypBox)
         lemma_rd4(d, p, pj, u32_of_fourcc(b.compatible_brands@[j]) as nat, all);
     }
 }
+
+// ---- avcC: the configuration record written by the reference encoder decodes (avcc_at) to the same record
+/// a list of NAL units whose reference bytes sit in `all` at offset `off` is what the decoder's walk finds in wr(d, p, all)
+pub proof fn lemma_nals_embedded(d: Seq<u8>, p: int, all: Seq<u8>, off: int, v: Seq<NalUnit>, n: int)
+    requires 0 <= p, 0 <= off, nals_wire(v), 0 <= n <= v.len(), off + nals_bytes(v, n).len() <= all.len(),
+             forall|k: int| 0 <= k < nals_bytes(v, n).len() ==> all[off + k] == nals_bytes(v, n)[k]
+    ensures nals_end(wr(d, p, all), p + off, n) == p + off + nal_sum(v, n), nals_match(wr(d, p, all), p + off, v, n)
+    decreases n
+{
+    broadcast use lemma_be_bytes_len, group_be_bytes;
+    let s = wr(d, p, all);
+    if n > 0 {
+        let pre = nals_bytes(v, n - 1); let x = v[n - 1]; let nb = nal_bytes(x);
+        lemma_nals_bytes_len(v, n - 1); lemma_nals_bytes_len(v, n);
+        assert(nals_bytes(v, n) == pre + nb);
+        assert forall|k: int| 0 <= k < pre.len() implies all[off + k] == pre[k] by { assert((pre + nb)[k] == pre[k]); }
+        lemma_nals_embedded(d, p, all, off, v, n - 1);
+        let e = p + off + nal_sum(v, n - 1);
+        assert(nals_end(s, p + off, n - 1) == e);
+        let len = x.bytes@.len();
+        // the two length bytes and the payload, read back
+        assert forall|k: int| 0 <= k < nb.len() implies s[e + k] == nb[k] by {
+            assert((pre + nb)[pre.len() + k] == nb[k]);
+            lemma_wr_index(d, p, all, off + pre.len() + k);
+        }
+        assert(nb[0] == byte_of(len, 1) && nb[1] == byte_of(len, 0));
+        assert(s[e] == nb[0] && s[e + 1] == nb[1]);
+        lemma_wr_index(d, p, all, off + pre.len() + 1);
+        lemma_be16_of_bytes(s, e, len);
+        assert(be16(s, e) == len);
+        assert(nal_bytes_at(s, e) =~= x.bytes@) by {
+            assert forall|k: int| 0 <= k < len implies s.subrange(e + 2, e + 2 + len)[k] == x.bytes@[k] by { assert(nb[2 + k] == x.bytes@[k]); }
+        }
+        assert(nals_end(s, p + off, n) == nal_end(s, e));
+        assert forall|i: int| 0 <= i < n implies (#[trigger] v[i]).bytes@ == nal_bytes_at(s, nals_end(s, p + off, i)) by {
+            if i < n - 1 { assert(nals_match(s, p + off, v, n - 1)); }
+        }
+    }
+}
+
+pub proof fn lemma_avcc_roundtrip(d: Seq<u8>, p: int, b: AvcCBox)
+    requires 0 <= p, avcc_wire(b), b.length_size_minus_one <= 3
+    ensures avcc_at(wr(d, p, avcc_bytes(b)), p + 8, b)
+{
+    broadcast use lemma_be_bytes_len, group_be_bytes;
+    let all = avcc_bytes(b); let s = wr(d, p, all);
+    let ns = b.sequence_parameter_sets@.len() as int; let np = b.picture_parameter_sets@.len() as int;
+    let hd = avcc_head(b); let sb = nals_bytes(b.sequence_parameter_sets@, ns); let pb = nals_bytes(b.picture_parameter_sets@, np);
+    lemma_nals_bytes_len(b.sequence_parameter_sets@, ns); lemma_nals_bytes_len(b.picture_parameter_sets@, np);
+    assert(hd.len() == 14);
+    assert(all == ((hd + sb) + seq![np as u8]) + pb);
+    // the six fixed bytes
+    assert forall|k: int| 0 <= k < 14 implies s[p + k] == hd[k] by { assert(all[k] == hd[k]); lemma_wr_index(d, p, all, k); }
+    let l = b.length_size_minus_one; let c = ns as u8;
+    assert((l | 0xFC) & 0x3 == l) by(bit_vector) requires l <= 3;
+    assert((c | 0xE0) & 0x1f == c) by(bit_vector) requires c <= 31;
+    // sequence parameter sets at offset 14
+    assert forall|k: int| 0 <= k < sb.len() implies all[14 + k] == sb[k] by { assert((hd + sb)[14 + k] == sb[k]); }
+    lemma_nals_embedded(d, p, all, 14, b.sequence_parameter_sets@, ns);
+    // count byte of the picture parameter sets, then the sets
+    let o2 = 14 + sb.len() as int;
+    assert(all[o2] == np as u8) by { assert(((hd + sb) + seq![np as u8])[o2] == np as u8); }
+    lemma_wr_index(d, p, all, o2);
+    assert forall|k: int| 0 <= k < pb.len() implies all[o2 + 1 + k] == pb[k] by { assert((((hd + sb) + seq![np as u8]) + pb)[o2 + 1 + k] == pb[k]); }
+    lemma_nals_embedded(d, p, all, o2 + 1, b.picture_parameter_sets@, np);
+}
